@@ -29,8 +29,7 @@ class AttrDict(dict):
     def __getitem__(self, key):
         found = self.get(key, AttrDict.MARKER)
         if found is AttrDict.MARKER:
-            found = AttrDict()
-            super(AttrDict, self).__setitem__(key, found)
+            raise AttributeError(key)
         return found
 
     __setattr__, __getattr__ = __setitem__, __getitem__
